@@ -1,11 +1,15 @@
 #!/bin/bash
 # allseeds.sh [pattern] -- run every kept mutant under seeded/ against its property's quick check; prints one line per mutant.
+# SHARD=i/n runs every n-th mutant starting at the i-th (several shards may run side by side).
 cd /verif
+si=${SHARD%/*}; sn=${SHARD#*/}; k=0
 for d in seeded/*/; do
   n=$(basename $d)
   case "$n" in *${1:-}*) ;; *) continue;; esac
+  k=$((k+1))
+  if [ -n "${SHARD:-}" ] && [ $((k % sn)) -ne "$si" ]; then continue; fi
   if [ -f $d/meta.json ]; then p=$(python3 -c "import json;print(json.load(open('$d/meta.json')).get('breaks_property') or json.load(open('$d/meta.json'))['property'])"); else p=$(echo $n | sed -E 's/^c([0-9]+).*/C\1/'); fi
   out=$(SKIP_BASELINE=1 SKIP_DEMO=1 timeout 1200 tools/tryseed.sh /verif/$d $p 2>&1 | grep -E "^\[C|APPLY|COMPILE" | head -1 | cut -c1-60)
   echo "$n $p $out"
 done
-rm -rf /verif/replays
+if [ -z "${SHARD:-}" ]; then rm -rf /verif/replays; fi
